@@ -299,6 +299,7 @@ def handle (st : St) (line : String) : St × String :=
         | .error .unknownFunction => (st, "err:unknownFunction")
         | .error .noParams => (st, "err:noParams")
     | _, _ => (st, "bad-op")
+  | ["e", _] => (st, "same")
   | ["k", _, _] => (st, "done")
   | ["n", _] => (st, "done")
   | ["n"] => (st, "done")
